@@ -10,10 +10,12 @@ import (
 	"encoding/hex"
 	"encoding/json"
 	"fmt"
+	"math/big"
 	"os"
 	"path/filepath"
 	"testing"
 
+	"github.com/cloudflare/circl/group"
 	"github.com/cloudflare/circl/oprf"
 	"github.com/cloudflare/pat-go/tokens"
 	"github.com/cloudflare/pat-go/tokens/batched"
@@ -58,6 +60,15 @@ func checkPair(t *rapid.T, s *rt.Sub, typ uint16, run issuance, blindA, blindB [
 		rt.Fail(t, "C11/"+tn+"/run", "issuance with the other blind failed: %v", err)
 		return
 	}
+	if len(ident) >= 3 && (typ == 1 || typ == 5) {
+		// absolute oracle for the request bytes: type || last byte of the key id || blind * HashToGroup(token input), the
+		// group operations done through circl's group API directly (RFC 9497 context string written out here), the
+		// framing by the harness's reference encoder
+		if want := expectedRequest(typ, ident[0], ident[1], ident[2], blindA); !bytes.Equal(reqA1, want) {
+			rt.Fail(t, "C11/"+tn+"/request-value", "request bytes %s are not type || key id byte || [blind]HashToGroup(type||nonce||SHA-256(challenge)||key id) = %s (blinds %x)", rt.Hex(reqA1), rt.Hex(want), blindA)
+			return
+		}
+	}
 	if !bytes.Equal(reqA1, reqA2) {
 		rt.Fail(t, "C11/"+tn+"/request-not-reproducible", "same arguments, different request bytes: %s vs %s", rt.Hex(reqA1), rt.Hex(reqA2))
 		return
@@ -94,6 +105,35 @@ func checkPair(t *rapid.T, s *rt.Sub, typ uint16, run issuance, blindA, blindB [
 	s.Sample(func() any {
 		return map[string]any{"type": typ, "blindA": rt.Hex(bytes.Join(blindA, nil)), "blindB": rt.Hex(bytes.Join(blindB, nil)), "requestA": rt.Hex(reqA1), "requestB": rt.Hex(reqB), "token": rt.Hex(tokA1)}
 	})
+}
+
+// expectedRequest computes a type-1 / type-5 token request from its arguments without pat-go.
+func expectedRequest(typ uint16, keyID, chal, nonces []byte, blinds [][]byte) []byte {
+	var g group.Group = group.P384
+	dst := "HashToGroup-OPRFV1-\x01-P384-SHA384"
+	if typ == 5 {
+		g, dst = group.Ristretto255, "HashToGroup-OPRFV1-\x01-ristretto255-SHA512"
+	}
+	var elements [][]byte
+	for i := range blinds {
+		input := gen.AuthInput(typ, nonces[32*i:32*i+32], chal, keyID)
+		sc := g.NewScalar()
+		if typ == 1 {
+			sc.SetBigInt(new(big.Int).SetBytes(blinds[i])) // big-endian integer, any length
+		} else if err := sc.UnmarshalBinary(blinds[i]); err != nil {
+			return nil
+		}
+		el := g.NewElement().Mul(g.HashToElement(input, []byte(dst)), sc)
+		enc, err := el.MarshalBinaryCompress()
+		if err != nil {
+			return nil
+		}
+		elements = append(elements, enc)
+	}
+	if typ == 1 {
+		return ref.EncodeBasicRequest(1, keyID[len(keyID)-1], elements[0])
+	}
+	return ref.EncodeBatchedPrivateRequest(keyID[len(keyID)-1], elements)
 }
 
 // callerBuffers hands out private copies of argument values and can overwrite all of them: a caller that
@@ -153,6 +193,11 @@ func TestType1(t *testing.T) {
 		issuer := type1.NewBasicPrivateIssuer(key)
 		chal, nonce := gen.Challenge().Draw(t, "challenge"), gen.Bytes32().Draw(t, "nonce")
 		a, b := distinctPair(t, gen.P384Scalar(), 1)
+		if gen.Uniform(t, 4, "shortBlind") == 0 {
+			// the same kind of value in a shorter big-endian encoding (what big.Int.Bytes() gives for a small scalar)
+			a[0] = append([]byte{1}, gen.Bytes(t, 0, 46, "shortBlindBytes")...)
+			s.Class("blind-shorter-than-48-bytes")
+		}
 		run := func(blinds [][]byte) ([]byte, []byte, error) {
 			var cb callerBuffers
 			st, err := type1.NewBasicPrivateClient().CreateTokenRequestWithBlind(cb.arg(chal), cb.arg(nonce), cb.arg(issuer.TokenKeyID()), issuer.TokenKey(), cb.arg(blinds[0]))
